@@ -197,8 +197,9 @@ func VerifC16_InterruptedStore() {
 		// a stopped process reports nothing: only its effects on the storage count
 		err2 = errors.New("verif: the storing process stopped")
 	}
-	verif.Observe("fault_op", b.faultOp)
-	verif.Observe("store_result", err2 == nil)
+	// (no Observe of what the k-th operation was or what came of it: the engine's and a native run's k-th
+	// operations need not coincide -- the number of Read calls of io.ReadAll-style loops follows the
+	// allocator's growth policy -- so native replays check the assertions at *their* k-th operation)
 	verif.Assume(reached()) // otherwise this is the fault-free run, covered by k = last operation + 1
 	bcancel()                // the interrupted client is gone: its heartbeat stops with it
 	verif.Advance(300 * time.Millisecond)
@@ -209,7 +210,6 @@ func VerifC16_InterruptedStore() {
 	err3 := c.cache.Fetch(ctx, vKey, "/dest")
 	if err3 == nil {
 		v := vWhichVersion(inner, "/dest", 2)
-		verif.Observe("fetched", v)
 		verif.Assert("fetch_installs_one_complete_version", v == 2 || (v == 1 && withFirst))
 		if err2 == nil {
 			verif.Assert("a_successful_store_is_what_fetch_returns", v == 2)
@@ -273,9 +273,7 @@ func VerifC16_ConcurrentClients() {
 	err3 := c.cache.Fetch(ctx, vKey, "/dest")
 	if err3 == nil {
 		v := vWhichVersion(inner, "/dest", 3)
-		if what != 1 {
-			verif.Observe("fetched", v) // (two overlapping Stores: which one is newer depends on real time natively)
-		}
+		_ = v // (not observed: see VerifC16_InterruptedStore)
 		verif.Assert("fetch_installs_one_complete_version", v == 1 || v == 2 || (v == 3 && what == 1))
 		if errA == nil && what != 1 {
 			verif.Assert("a_successful_store_is_what_fetch_returns", v == 2)
@@ -328,7 +326,6 @@ func VerifC16_FetchVersusOthers() {
 	verif.Assume(ran)
 	if errB == nil {
 		v := vWhichVersion(inner, "/destB", 2)
-		verif.Observe("fetched", v)
 		verif.Assert("fetch_installs_one_complete_version", v == 1 || (v == 2 && what != 2))
 	}
 }
